@@ -8,11 +8,11 @@ Local Open Scope Z_scope.
 (* a transaction of one of the four shapes, with an expected revision that is zero, correct or stale
    (any revision up to the current one), on a key that may exist, be missing or have been deleted;
    minus the signatures of findings F1/F2 (delete with expected revision 0, unguarded delete of a
-   missing key), F6 (reserved value) and F8 (empty value) *)
+   missing key) and F6 (reserved value); values may be empty *)
 Definition txn_in_scope (sb : bstate) (se : estate) (t : txn_req) : Prop :=
   match canonical t with
-  | Some (ShCreate k v) => k <> [] /\ v <> tombstone /\ v <> []
-  | Some (ShUpdate k v e) => k <> [] /\ v <> tombstone /\ v <> [] /\ 0 <= e <= Z.of_N (b_rev sb)
+  | Some (ShCreate k v) => k <> [] /\ v <> tombstone
+  | Some (ShUpdate k v e) => k <> [] /\ v <> tombstone /\ 0 <= e <= Z.of_N (b_rev sb)
   | Some (ShDelete k e) => k <> [] /\ 0 < e <= Z.of_N (b_rev sb)
   | Some (ShDeleteU k) => k <> [] /\ e_find k (e_cur se) <> None
   | None => False
@@ -65,8 +65,8 @@ Lemma sim_txn_scope sb se t : R sb se -> bounded sb -> txn_in_scope sb se t -> s
 Proof.
   intros HR Hb Hs. unfold txn_in_scope in Hs. destruct (canonical t) as [sh|] eqn:Ec; [|contradiction].
   pose proof (canonical_inv t sh Ec) as Hinv. destruct sh as [k v|k v e|k e|k].
-  - destruct Hinv as (u & lease & Hu & ->). destruct Hs as (Hk & Hv & Hne). apply sim_create; assumption.
-  - destruct Hinv as (u & lease & lim & Hu & ->). destruct Hs as (Hk & Hv & Hne & He). apply sim_update_scope; try assumption. lia.
+  - destruct Hinv as (u & lease & Hu & ->). destruct Hs as (Hk & Hv). apply sim_create; assumption.
+  - destruct Hinv as (u & lease & lim & Hu & ->). destruct Hs as (Hk & Hv & He). apply sim_update_scope; try assumption. lia.
   - destruct Hinv as (u & lim & Hu & ->). destruct Hs as (Hk & He). apply sim_delete_scope; try assumption. lia.
   - destruct Hinv as (lim & ->). destruct Hs as (Hk & He).
     destruct (e_find k (e_cur se)) as [y|] eqn:Ef; [|congruence]. eapply sim_deleteu_live; eassumption.
@@ -126,11 +126,11 @@ Proof. apply R_ev. Qed.
 
 Definition int64 (z : Z) : Prop := - two63 <= z < two63.
 
-(* the expected revision of a canonical shape is an int64, written values are neither reserved nor empty *)
+(* the expected revision of a canonical shape is an int64, written values are not the reserved one *)
 Definition fields_ok (t : txn_req) : Prop :=
   match canonical t with
-  | Some (ShCreate _ v) => v <> tombstone /\ v <> []
-  | Some (ShUpdate _ v e) => v <> tombstone /\ v <> [] /\ int64 e
+  | Some (ShCreate _ v) => v <> tombstone
+  | Some (ShUpdate _ v e) => v <> tombstone /\ int64 e
   | Some (ShDelete _ e) => int64 e
   | _ => True
   end.
@@ -185,8 +185,8 @@ Proof.
   - pose proof (canonical_key_wf t sh Ec Hwf) as Hk.
     pose proof (canonical_inv t sh Ec) as Hinv. unfold fields_ok in Hf. rewrite Ec in Hf.
     destruct sh as [k v|k v e|k e|k]; cbn [shape_key] in Hk.
-    + destruct Hinv as (u & lease & Hu & ->). destruct Hf as (Hv & Hne). right. apply sim_create; assumption.
-    + destruct Hinv as (u & lease & lim & Hu & ->). destruct Hf as (Hv & Hne & Hi). unfold int64 in Hi.
+    + destruct Hinv as (u & lease & Hu & ->). right. apply sim_create; assumption.
+    + destruct Hinv as (u & lease & lim & Hu & ->). destruct Hf as (Hv & Hi). unfold int64 in Hi.
       destruct (Z_lt_le_dec e 0) as [Hneg|Hpos]; [left; apply sim_update_hostile; try assumption; lia|].
       destruct (Z_le_gt_dec e (Z.of_N (b_rev sb) + 1)) as [Hle|Hgt].
       * right. apply sim_update_scope; try assumption. lia.
@@ -281,11 +281,11 @@ Lemma refute_reserved_value :
   /\ proj_range (etcd_range (fst (etcd_txn (e_init 10) 11 t)) r) = Some ([(kA, tombstone, 11)], 1, false).
 Proof. vm_compute. split; reflexivity. Qed.
 
-(* F8: a key with an empty value is not returned by a point read *)
-Lemma refute_empty_value :
+(* the witness of the former finding C16-F8: a key with an empty value is returned by a point read, as by etcd *)
+Lemma empty_value_read :
   let t := q_create kA [] (UMod 0) 0 in
   let r := mkRange kA [] 0 0 false false in
-  proj_range (shim_range (fst (shim_txn (b_init 10) t)) r) = Some ([], 0, false)
+  proj_range (shim_range (fst (shim_txn (b_init 10) t)) r) = Some ([(kA, [], 11)], 1, false)
   /\ proj_range (etcd_range (fst (etcd_txn (e_init 10) 11 t)) r) = Some ([(kA, [], 11)], 1, false).
 Proof. vm_compute. split; reflexivity. Qed.
 
